@@ -64,6 +64,14 @@ def det_rerun_changes_udef(f):
     return bool(b) and a != b
 
 
+def det_rerun_changes(f):
+    """re-running the passes named in `passes` on the finished graph changes a fact"""
+    blk = _pipe(f["input"], "facts", extra="x:" + f.get("passes", "ael"))
+    a = [l for l in blk if l.startswith("FACT ")]
+    b = [l[1:] for l in blk if l.startswith("XFACT ")]
+    return bool(b) and a != b
+
+
 def det_varies(f):
     """repeated runs of the witness give different outputs"""
     from common import run_lines_isolated as rl
@@ -72,7 +80,7 @@ def det_varies(f):
     return len(outs) > 1
 
 
-DETECTORS = {"varies": det_varies, "false_claim": det_false_claim, "hang": det_hang, "lint_count": det_lint_count,
+DETECTORS = {"rerun_changes": det_rerun_changes, "varies": det_varies, "false_claim": det_false_claim, "hang": det_hang, "lint_count": det_lint_count,
              "cfgerr": det_cfgerr, "rerun_changes_udef": det_rerun_changes_udef}
 
 
